@@ -11,7 +11,7 @@ VERIF = os.path.dirname(os.path.dirname(os.path.abspath(__file__)))
 V1_4 = ['str', 'bytes', 'fromstr_addresses', 'fromstr_header']
 SPECS = {
     'C18': {'kinds': ['str', 'bytes'], 'lmax': {'quick': 112, 'thorough': 128},
-            'obligations': [('c18_final', ['str', 'bytes'])]},
+            'obligations': [('c18_final', ['str', 'bytes']), ('c18_witness', ['str', 'bytes'])]},
     'C03': {'kinds': ['str', 'bytes', 'fromstr_addresses', 'fromstr_header'], 'lmax': {'quick': 112, 'thorough': 128},
             'obligations': [('c03_nopanic', V1_4)]},
     'C01': {'kinds': ['str', 'bytes'], 'lmax': {'quick': 112, 'thorough': 128},
@@ -71,6 +71,9 @@ def relevant(obname, p):
         return p.kind() == 'Ok'
     if obname == 'c18_final':
         return p.kind() == 'Err' and p.inc
+    if obname == 'c18_witness':
+        # a handful of complete verdicts is enough for the vacuity guard
+        return p.kind() == 'Ok' or (p.kind() == 'Err' and not p.inc and p.idx % 16 == 0)
     if obname == 'c03_nopanic':
         return True
     if obname == 'c03_views_nopanic':
@@ -344,6 +347,23 @@ def decide(ctx, pc, neg, label, make_cex, realize=(), roles=(), oracle_defs=()):
     return out
 
 
+def witness(ctx, pc, formula, group, oracle_defs=(), extra_axioms=()):
+    """vacuity guard: `formula` must be satisfiable together with this path (sat expected). Grouped by `group`:
+    the driver requires at least one satisfied witness per group."""
+    t0 = time.time()
+    s = new_solver(ctx, list(oracle_defs) + list(extra_axioms))
+    s.set('timeout', 60000)
+    for c in pc:
+        s.add(c)
+    s.add(formula)
+    r = s.check()
+    rec = {'label': 'witness:' + group, 'witness_group': group, 'solver_s': time.time() - t0,
+           'status': 'wit_ok' if r == z3.sat else 'wit_fail'}
+    if r == z3.sat:
+        rec['input'] = repr(v1sum.model_bytes(s.model(), ctx))
+    return rec
+
+
 ENTRY_OF = {'str': 'v1_str', 'bytes': 'v1_bytes', 'fromstr_addresses': 'v1_fromstr_addresses', 'fromstr_header': 'v1_fromstr_header'}
 
 
@@ -482,6 +502,15 @@ def violated(cex, o):
 
 
 # ------------------------------------------------------------------ obligations
+def ob_c18_witness(W, kind, idx, params):
+    """vacuity guard of C18: the precondition is satisfiable on paths with a complete verdict"""
+    import wstate
+    ctx, paths = wstate.w_summary(kind)
+    p = paths[idx]
+    orc = Oracle(ctx)
+    return [witness(ctx, p.pc, orc.prefix_of_line_seen(), 'c18 precondition (line break or 107 bytes seen) holds on a %s verdict (%s entry)' % ('success' if p.kind() == 'Ok' else 'terminal', kind), oracle_defs=orc.defs)]
+
+
 def ob_c18_final(W, kind, idx, params):
     """C18: once the first CR is followed by at least one more byte, or 107 bytes were supplied without
     any CR, the result is complete: no path with an incomplete verdict is compatible with that."""
@@ -1036,7 +1065,9 @@ def ob_c12_blame(W, kind, idx, params):
     fields = [(fam, a, b, z3.And(orc.kw_ok(), orc.proto_is(kw))) for fam, kw in ((4, b'TCP4'), (6, b'TCP6')) for (a, b) in t['f'][:2]]
     for name, cls, want in c12_classes(orc, kind):
         if got in want and terminal:
-            continue          # this path gives the required verdict: nothing to refute
+            # this path gives the required verdict: nothing to refute; it serves as reachability witness of the class
+            out.append(witness(ctx, p.pc, cls, 'c12 class `%s` (%s entry) is inhabited and gets %s' % (name, kind, '/'.join(want)), oracle_defs=orc.defs))
+            continue
         out += decide(ctx, p.pc, cls, 'c12_blame:%s:%s:%s' % (kind, name, p.label()),
                       lambda m, want=want, name=name: cex_single(ctx, kind, m, 'not_error', 'corrupted %s is not rejected with a terminal %s' % (name, '/'.join(want)), want_err=want),
                       realize=realizable(ctx, p) + oracle_realizable(ctx, fields), roles=roles_for(W, ctx, orc), oracle_defs=orc.defs)
@@ -1217,8 +1248,11 @@ def ob_c06_v1_ok_starts_with_P(W, kind, idx, params):
 
 
 # ------------------------------------------------------------------ C08: formatting produces canonical lines that parse back
-SPECS['C08'] = {'kinds': V1_4, 'lmax': {'quick': 112, 'thorough': 128}, 'modular': 'c08_prepare',
-                'obligations': [('c08_roundtrip', V1_4)]}
+# quick: text and byte entry points (the FromStr impls are try_from(&str) + glue, see C16); thorough: all four
+SPECS['C08'] = {'kinds': ['str', 'bytes'], 'lmax': {'quick': 112, 'thorough': 128}, 'modular': 'c08_prepare',
+                'obligations': [('c08_roundtrip', ['str', 'bytes'])],
+                'thorough_extra': {'kinds': ['fromstr_addresses', 'fromstr_header'], 'lmax': 112,
+                                   'obligations': [('c08_roundtrip', ['fromstr_addresses', 'fromstr_header'])]}}
 _C08 = {}
 
 
@@ -1233,7 +1267,7 @@ def c08_pieces(prog):
     out = {}
     for variant in ('Unknown', 'Tcp4', 'Tcp6'):
         ex = v1sum.new_exec(prog, [], 0)
-        ex.begin([], replay_only=True)
+        ex.suffix = ''
         if variant == 'Unknown':
             val = Enum('v1::model::Addresses', 'Unknown', [])
             sym = {}
@@ -1252,11 +1286,21 @@ def c08_pieces(prog):
             ip.fields = {i: vals[n] for i, n in enumerate(order)}
             ip.names = {n: i for i, n in enumerate(order)}
             val = Enum('v1::model::Addresses', variant, [ip])
-        f = Opaque('Formatter', pieces=[])
-        r = ex.call_fn(disp[0], [Ref(Cell(val)), Ref(Cell(f))], {})
-        if ex.pc:
-            raise Unsupported('Display::fmt branches on symbolic data')
-        out[variant] = (sym, list(f.pieces), r)
+        def run(e, val=val):
+            f = Opaque('Formatter', pieces=[])
+            r = e.call_fn(disp[0], [Ref(Cell(val)), Ref(Cell(f))], {})
+            e.notes.append(('fmt', list(f.pieces), r))
+            return r
+        bounds = []
+        if sym:
+            bounds = [z3.And(sym['sa'] >= 0, sym['sa'] < 2 ** (32 if sym['fam'] == 4 else 128), sym['da'] >= 0, sym['da'] < 2 ** (32 if sym['fam'] == 4 else 128))]
+        alts = []
+        for sc, items, outc, notes in explore(ex, run, base_axioms=bounds):
+            if outc[0] != 'ret':
+                raise Unsupported('Display::fmt panics: %s' % (outc[1],))
+            _, pieces, r = [n for n in notes if n[0] == 'fmt'][0]
+            alts.append(([c_ for _, c_ in items], pieces, r))
+        out[variant] = (sym, alts)
     _C08[key] = out
     return out
 
@@ -1265,10 +1309,11 @@ def c08_prepare(prog, lmax):
     """modular part of C08: the template of Display for Addresses is decoded from the MIR (one run per variant)"""
     pcs = c08_pieces(prog)
     recs = []
-    for variant, (sym, pieces, r) in pcs.items():
-        ok = isinstance(r, Enum) and r.variant == 'Ok' and len(pieces) >= 1
-        recs.append({'label': 'c08_template:%s' % variant, 'task': ['c08_template', 'display', variant], 'solver_s': 0.0,
-                     'status': 'unsat' if ok else 'unknown', 'detail': 'pieces: %r' % (pieces,)})
+    for variant, (sym, alts) in pcs.items():
+        for k, (cond, pieces, r) in enumerate(alts):
+            ok = isinstance(r, Enum) and r.variant == 'Ok' and len(pieces) >= 1
+            recs.append({'label': 'c08_template:%s:%d' % (variant, k), 'task': ['c08_template', 'display', variant], 'solver_s': 0.0,
+                         'status': 'unsat' if ok else 'unknown', 'detail': 'pieces: %r' % (pieces,)})
     return len(pcs), 0, recs
 
 
@@ -1297,7 +1342,9 @@ def c08_formatted(ctx, orc, variant, sym, pieces):
                 okf, valf = (ctx.ok4, ctx.val4) if fam == 4 else (ctx.ok6, ctx.val6)
                 # std contract: Display output is ASCII over the address alphabet, 7..15 / 2..39 bytes, and from_str(display(a)) == Ok(a)
                 lo, hi = (7, 15) if fam == 4 else (2, 39)
+                other = ctx.ok6 if fam == 4 else ctx.ok4
                 cs += [e - a >= lo, e - a <= hi, okf(a, e), valf(a, e) == v.val, models.addr_contract(ctx, fam, a, e),
+                       z3.Not(other(a, e)),      # std fact: no text is both a valid IPv4 and a valid IPv6 address (':' vs '.'-only)
                        v.val >= 0, v.val < 2 ** (32 if fam == 4 else 128)]
                 fields.append((fam, a, e))
             else:
@@ -1318,8 +1365,10 @@ def ob_c08_roundtrip(W, kind, idx, params):
     p = paths[idx]
     orc = Oracle(ctx)
     out = []
-    for variant, (sym, pieces, r) in c08_pieces(W['prog']).items():
+    for variant, sym, cond, pieces in [(v_, s_, c_, p_) for v_, (s_, alts_) in c08_pieces(W['prog']).items() for (c_, p_, r_) in alts_]:
         F, fields = c08_formatted(ctx, orc, variant, sym, pieces)
+        if cond:
+            F = z3.And([F] + list(cond))
         good = z3.BoolVal(False)
         if p.kind() == 'Ok':
             hdr, addrs = ok_parts(p)
@@ -1373,11 +1422,11 @@ def c10_builder_t(prog, lmax):
 
 
 def c20_builder_q(prog, lmax):
-    return _builder(prog, {'C20'}, 'c20_histories', 2)
+    return _builder(prog, {'C20', 'C10'}, 'c20_histories', 2)
 
 
 def c20_builder_t(prog, lmax):
-    return _builder(prog, {'C20'}, 'c20_histories', 3)
+    return _builder(prog, {'C20', 'C10'}, 'c20_histories', 3)
 
 
 for _pid, _q, _t in (('C09', 'c09_builder_q', 'c09_builder_t'), ('C10', 'c10_builder_q', 'c10_builder_t'), ('C20', 'c20_builder_q', 'c20_builder_t')):
